@@ -23,8 +23,14 @@ SHAPED = (["kind:" + k for k in enumgen.KIND_NAMES] + ["k:%d" % k for k in range
           ["zero", "nozero", "composite", "composite", "nocomposite", "gaps", "gaps"])
 
 
-def make_cases(ctx, cid, en):
+GEN = [None]
+
+
+def make_cases(ctx, cid, en, mode=None):
     T = en["T"]
+    if GEN[0] is None:
+        GEN[0] = enumgen.EnumGen(ctx.rng)
+    lay = enumgen.layout(ctx, GEN[0], en, force=mode)
     _, decl = enumgen.classify(en)
     top = max([v for _, v in decl if v > 0] + [1])
     lo, khi = enumgen.krange(en["kind"])
@@ -34,25 +40,26 @@ def make_cases(ctx, cid, en):
         negs = sorted(set([-1, -2, lo, lo + 1, lo + 2, lo + 3, lo + top, lo | top, -top, -top - 1, -(top << 1)] + [-v for _, v in decl if v > 0]
                           + [v for _, v in decl if v < 0] + [v | w for _, v in decl if v < 0 for _, w in decl if w > 0]))
         negs = [v for v in negs if lo <= v < 0]
-    main = {"id": cid, "en": en, "decl": decl, "files": enumgen.render_files(en),
-            "runs": [{"args": ["enum", "-bit", "-type=" + T]}],
+    main = {"id": cid, "en": en, "decl": decl, "files": lay["files"], "mode": lay["mode"],
+            "runs": [{"args": ["enum", "-bit"] + lay["sel"]}],
             "oracle": {".": enumgen.oracle_c14(en, decl, hi, negs)},
-            "sexp": enumgen.case_sexp(cid, "c14", en, [["hi", str(hi)], ["neg"] + [str(v) for v in negs]]), "cmd": "shoot enum -bit -type=" + T,
+            "sexp": enumgen.case_sexp(cid, "c14", en, [["hi", str(hi)], ["neg"] + [str(v) for v in negs]]), "cmd": "shoot enum -bit " + " ".join(lay["sel"]),
             "hi": hi, "kind": "main"}
     raw = {"id": cid + "r", "en": en, "decl": decl, "sexp": enumgen.case_sexp(cid + "r", "c14raw", en, []),
            "cmd": "shoot enum -bit -type=%s && go build" % T, "kind": "raw"}
 
     def post(b, c, r):
-        rel, gen = enumgen.generated_file(r["written"])
-        if not rel:
+        gens = enumgen.generated_files(r["written"])
+        if not gens:
             return
         fs = dict(c["files"])
-        fs[rel] = gen
+        fs.update(gens)
         enumgen.write_pkg(os.path.join(b.root, "c_%sr" % c["id"]), fs)        # the output as emitted
-        patched, changed = enumgen.patch_undefined_map(gen)
-        c["patched"] = changed
-        with open(os.path.join(b.cdir(c), rel), "w") as f:
-            f.write(patched)
+        for rel, gen in gens.items():
+            patched, changed = enumgen.patch_undefined_map(gen)
+            c["patched"] = c.get("patched") or changed
+            with open(os.path.join(b.cdir(c), rel), "w") as f:
+                f.write(patched)
     main["post"] = post
     return main, raw
 
@@ -130,6 +137,7 @@ def run(ctx, obl):
                 res.hist("features", f)
             res.hist("requested-feature", main["en"].get("feature", "random"))
             res.hist("shape", main["en"].get("shape", "corpus"))
+            res.hist("run-mode", main["mode"])
             vals = [v for _, v in main["decl"]]
             res.hist("flags", str(sum(1 for v in vals if v and v & (v - 1) == 0)))
             res.hist("composites", str(sum(1 for v in vals if v and v & (v - 1) != 0)))
@@ -145,12 +153,14 @@ def run(ctx, obl):
                     v.setdefault("detail", c.get("detail"))
                     v.setdefault("sources", c.get("files"))
                     v.setdefault("enum", c["en"])
+                    v.setdefault("mode", c.get("mode"))
     res.extra["value_flag_pairs_executed"] = npairs
     res.rule = ("beyond the grammar, also asserted (against the exact general statement Bit.specGeneral): enums with a value that is no union of "
                 "declared bits, with arbitrary overlapping values, and signed enums with a flag on the sign bit (negative values, `_max` negative); "
                 "bit-flag enums generated from the grammar (1-8 single-bit flags, contiguous `1 << iota` runs or scattered decimal/hex/shift "
                 "literals in any order, optional zero constant, 0-3 declared composites `A | B`, all 10 integer kinds, prefixed or plain names); "
-                "`shoot enum -bit -type=T` is run; the emitted file is compiled as it is (finding: undefined `_<t>_map`) and, with the defined table "
+                "ONE `shoot enum -bit` run generates T alone (-type=T), after a companion type (-type=Comp,T), or by -file= (constants spread over several "
+                "files, optionally a companion declared first); the emitted file is compiled as it is (finding: undefined `_<t>_map`) and, with the defined table "
                 "substituted, String() is executed for every value in [0, 2^(top+2)) (clipped to the type) and Has/Add/Remove for every pair of "
                 "such a value with every declared constant. non-trivial = distinct enum in WF; %d (value, flag) pairs executed" % npairs)
     res.exhaustive = True
@@ -166,7 +176,7 @@ def replay(ctx, payload):
     if not en:
         print(payload.get("case") or payload)
         return 0
-    pair = make_cases(ctx, "replay", en)
+    pair = make_cases(ctx, "replay", en, mode=payload.get("mode"))
     for fn, src in pair[0]["files"].items():
         print("---- %s\n%s" % (fn, src))
     cases, impl, model = run_cases(ctx, [pair])
